@@ -15,7 +15,7 @@ BASE = {
     "Keys": "<- c_Keys1", "KVals": "<- c_KVals2", "Names": "<- c_Names1", "Ids": "<- c_Ids2", "Vecs": "<- c_Vecs2",
     "MKeys": "<- c_MKeys1", "MVals": "<- c_MVals2", "Cfgs": "<- c_CfgsA", "Maints": "<- c_Maints1", "ALs": "<- c_ALs1",
     "Targets": "<- c_Targets", "GNodes": "<- c_Empty", "Rels": "<- c_Empty", "Ws": "<- c_Empty", "Ps": "<- c_Empty",
-    "GName": '"ix"', "CoreVacuum": "FALSE", "Seeded": "FALSE", "Imports": "FALSE", "Evolves": "FALSE", "Connections": "FALSE", "AccSeeds": "<- c_Empty", "SeedGraph": "FALSE", "Devs": "<- c_Empty", "MaxFile": 3, "MaxCtr": 3, "MaxAcc": 1, "MaxVer": 2, "MaxOps": 5, "MaxRej": 2,
+    "GName": '"ix"', "CoreVacuum": "FALSE", "Seeded": "FALSE", "Imports": "FALSE", "Evolves": "FALSE", "Connections": "FALSE", "AccSeeds": "<- c_Empty", "SeedGraph": "FALSE", "SeedTail": "TRUE", "SeedMaint": '"nil"', "Devs": "<- c_Empty", "MaxFile": 3, "MaxCtr": 3, "MaxAcc": 1, "MaxVer": 2, "MaxOps": 5, "MaxRej": 2,
 }
 
 GRAPH = dict(BASE, **{
@@ -70,6 +70,9 @@ CFGALL = dict(BASE, **{"Cfgs": "<- c_CfgsAll", "Keys": "<- c_Empty", "KVals": "<
 
 # hydration (VGetConnections) with its self-repair, on the seeded graph: the seed's b->g points at a node that is no vector
 HYDRATE = dict(SEEDED_G, **{"Connections": "TRUE"})
+
+# graph retention configured in the seed (graph vacuum runs) and a vector (b) that has incoming edges only
+SEEDED_RET = dict(SEEDED_G, **{"SeedTail": "FALSE", "SeedMaint": '"mc2"', "Maints": "<- c_Maints2"})
 
 INVS = ["Inv_CleanRestart", "Inv_RestartIdempotent", "Inv_IdMaps", "Inv_ListedIsReadable", "Inv_FwdRevAgree", "Inv_OneActive", "Inv_NoEdgeToDead"]
 PROPS = ["Prop_RejectedNoChange", "Prop_MaintenanceInvisible", "Prop_ReopenIdentity", "Prop_DeleteTouchesOnlyIncident"]
@@ -362,6 +365,15 @@ def run(prop, tier):
         for i, b in enumerate(b8):
             b["id"] = "sg%d" % i
         plans.append((sg, b8))
+    if prop in ("C10", "C12"):
+        # graph vacuum (retention configured in the seed) before / after deletes; b has incoming edges only
+        rt = dict(SEEDED_RET, MaxOps=2 if quick else 3)
+        cr_ = corpus(chk, "MC_Kektor_retention_corpus", rt, workers=8, timeout=5400)
+        br, _ = vlib.behaviours_from_corpus(cr_, max_behaviours=120 if quick else 8000, rng=rng,
+                                            need=lambda ops: any(o.get("op") == "GraphVacuum" for o in ops[6:]))
+        for i, b in enumerate(br):
+            b["id"] = "rt%d" % i
+        plans.append((rt, br))
     if prop in ("C10", "C12"):
         # hydration: VGetConnections returns live vectors only and soft-unlinks (journaled) the targets that are none
         hy = dict(HYDRATE, MaxOps=2 if quick else 3)
